@@ -90,7 +90,12 @@ func amountOf(variant string) int64 {
 	return 20
 }
 
-func (s *Spec) claim(n uint64, variant string) *cctypes.MsgSendToFxClaim {
+func (s *Spec) claim(n uint64, variant string) cctypes.ExternalClaim {
+	if n == 1 {
+		// event 1 is the set-up event (the FX token registration every bonded oracle voted for): an oracle that
+		// starts over after re-bonding meets it again and can only repeat that very claim
+		return scen.BridgeTokenClaim(s.Chain, 1, 100, s.token, "Function X", "FX", 18, "")
+	}
 	return scen.SendToFxClaim(s.Chain, n, 100+n, s.token, amountOf(variant), scen.ExtAddr(s.Chain, "depositor"), s.w.A("u1").Acc(), "", "")
 }
 
